@@ -79,11 +79,7 @@ pub fn types(tier: Tier) -> Vec<Ty> {
     out.extend(d1.iter().cloned());
     // depth 2
     let mut d2: Vec<Ty> = vec![Ty::Struct("S2".into()), Ty::Enum("E2".into())];
-    let d1_for_nesting: Vec<Ty> = if tier == Tier::Quick {
-        vec![Ty::arr(Ty::u8(), 2), Ty::Tup(vec![Ty::Bool, Ty::Int(I8)]), Ty::Struct("S".into()), Ty::Enum("E".into()), Ty::Tup(vec![]), Ty::arr(Ty::Bool, 0)]
-    } else {
-        d1.clone()
-    };
+    let d1_for_nesting: Vec<Ty> = d1.clone();
     for t in &d1_for_nesting {
         for n in 0..=2 {
             d2.push(Ty::arr(t.clone(), n));
@@ -91,7 +87,25 @@ pub fn types(tier: Tier) -> Vec<Ty> {
         d2.push(Ty::Tup(vec![t.clone(), Ty::u8()]));
         d2.push(Ty::Tup(vec![Ty::Bool, t.clone()]));
     }
-    out.extend(d2);
+    out.extend(d2.iter().cloned());
+    if tier == Tier::Thorough {
+        // depth 3: every depth-2 type once more inside an array, a tuple and (for a sample) an array of 3
+        for (i, t) in d2.iter().enumerate() {
+            out.push(Ty::arr(t.clone(), 1));
+            out.push(Ty::arr(t.clone(), 2));
+            out.push(Ty::Tup(vec![t.clone(), Ty::Int(I8)]));
+            out.push(Ty::Tup(vec![Ty::Int(U16), t.clone(), Ty::Bool]));
+            if i % 5 == 0 {
+                out.push(Ty::arr(t.clone(), 3));
+            }
+        }
+        for p in &prims {
+            for n in [3usize, 4, 7] {
+                out.push(Ty::arr(p.clone(), n));
+            }
+            out.push(Ty::Tup(vec![p.clone(), p.clone(), p.clone()]));
+        }
+    }
     out
 }
 
@@ -521,7 +535,33 @@ fn check_type(ty: &Ty, tier: Tier, cnt: &Cnt, coll: &Collector) {
         }
     };
     let mut truncated = false;
-    let vals = values(ty, &defs, tier.pick(60, 400), &mut truncated);
+    let mut vals = values(ty, &defs, tier.pick(400, 3000), &mut truncated);
+    if let (Ty::Int(t), Tier::Thorough) = (ty, tier) {
+        // primitive integers: every value of the 8- and 16-bit types, every 2^k, 2^k - 1, 2^k + 1
+        // (and their negations) of the wider ones
+        let t = *t;
+        let (lo, hi) = (IntTy::min(t), IntTy::max(t));
+        let mut xs: Vec<i128> = vec![];
+        if t.bits() <= 16 {
+            xs.extend(lo..=hi);
+        } else {
+            for k in 0..=64u32 {
+                let p = 1i128 << k;
+                for d in [-1i128, 0, 1] {
+                    for sgn in [1i128, -1] {
+                        let x = sgn * (p + d);
+                        if x >= lo && x <= hi {
+                            xs.push(x);
+                        }
+                    }
+                }
+            }
+            xs.extend([lo, hi, 0]);
+            xs.sort();
+            xs.dedup();
+        }
+        vals = xs.into_iter().map(|x| Val::Int(x, t)).collect();
+    }
     let size = defs.size_of(ty);
     let mut distinct = std::collections::HashSet::new();
     for v in &vals {
@@ -639,7 +679,7 @@ pub fn run(tier: Tier) -> i32 {
         coverage: json!({
             "evaluations": cnt.spellings.load(Ordering::Relaxed),
             "distinct_nontrivial": cnt.distinct.load(Ordering::Relaxed),
-            "rule": "all types of nesting depth <= 2 over {bool,u8,i8,u16,i64,usize,(u32,i16,i32,u64 flat)} with arrays of length 0..2, tuples of arity 0..2, structs with unsorted field declarations, enums with unit / 1- / 2-field / empty-tuple variants; per type all values over {MIN,-1,0,1,MAX}^k (capped, cap reported); per value every spelling: printed text, suffixed text, trailing commas, garbage, expressions; programmatic Literals with permuted / duplicated / missing / extra struct fields, enum payload arity +-1, out-of-range and wrongly suffixed numbers, ArrayRepeat, Range (incl. reversed, unspecified) at top level and one level down; each through parse_arg, literal_arg, Evaluator::set_literal, parse_output and the identity program; oracle = the harness's own encoder; non-trivial = values of types with >= 2 distinct encodings",
+            "rule": "all types of nesting depth <= 2 over {bool,u8,i8,u16,i64,usize,(u32,i16,i32,u64 flat)} with arrays of length 0..2, tuples of arity 0..2, structs with unsorted field declarations, enums with unit / 1- / 2-field / empty-tuple variants; per type all values over {MIN,-1,0,1,MAX}^k (capped, cap reported); thorough adds depth-3 types (every depth-2 type inside arrays of 1-3 and tuples), arrays of 3/4/7 and 3-tuples of every primitive, and for primitive integers EVERY value of the 8- and 16-bit types and every +-(2^k-1, 2^k, 2^k+1) of the wider ones; per value every spelling: printed text, suffixed text, trailing commas, garbage, expressions; programmatic Literals with permuted / duplicated / missing / extra struct fields, enum payload arity +-1, out-of-range and wrongly suffixed numbers, ArrayRepeat, Range (incl. reversed, unspecified) at top level and one level down; each through parse_arg, literal_arg, Evaluator::set_literal, parse_output and the identity program; oracle = the harness's own encoder; non-trivial = values of types with >= 2 distinct encodings",
             "samples": [
                 {"type": "S3", "value": "S3 {a: true, m: -1i8, z: 255u8}", "spelling": "Struct(\"S3\", [(\"z\", ..), (\"m\", ..), (\"a\", ..)]) (fields-reversed)", "expect": "refused, or accepted with the canonical bits"},
                 {"type": "E", "value": "E::C(true, 1u8)", "spelling": "Enum(\"E\", \"C\", Tuple([True]))", "expect": "refused"},
@@ -650,7 +690,7 @@ pub fn run(tier: Tier) -> i32 {
             "spellings": cnt.spellings.load(Ordering::Relaxed),
             "accepted": cnt.accepted.load(Ordering::Relaxed),
             "refused": cnt.refused.load(Ordering::Relaxed),
-            "value_cap_per_type": tier.pick(60, 400),
+            "value_cap_per_type": tier.pick(400, 3000),
             "exhaustive": done == tys.len() && !budget.hit(),
         }),
         assumptions: vec!["the harness's encoder (gast.rs Val::encode) is the documented layout".into(), "values per type are capped (depth-first truncation), the cap is in the evidence".into()],
